@@ -81,7 +81,7 @@ var hostileTokens = map[string][]string{
 	"Connection":        {",keep-alive", "close", " , close", "keep-alive, ,", ",", "", "Keep-Alive, ,Upgrade", " ", "close,", ",,"},
 }
 
-var hostileTargets = []string{"a:b", "//", "/..", "http://", "http:/x", ":", "*", "/%", "/%zz", "/%2", "?", "#", "/a?%", "/\x00", "h://u@:p@/", "/a b", "/fs/../../etc/passwd", "/fs/%2e%2e/", "/fs/empty.txt", "/fs//a.txt", "https://[::1/", "/?a=%&=&&b"}
+var hostileTargets = []string{"a:b", "//", "/..", "http://", "http:/x", ":", "*", "/%", "/%zz", "/%2", "?", "#", "/a?%", "/\x00", "h://u@:p@/", "/a b", "/fs/../../etc/passwd", "/fs/%2e%2e/", "/fs/empty.txt", "/fs//a.txt", "https://[::1/", "/?a=%&=&&b", "#?x", "#a?b#c", "?#?", "/#?"}
 
 type mutation struct {
 	kind string
